@@ -256,6 +256,18 @@ func init() {
 			ds.old = ds.c.clone()
 			src, _ := ds.old.get("p.go")
 			ds.old.put("p.go", []byte(strings.Replace(string(src), "package "+pkg, "package oldpkg", 1)))
+			if i%2 == 1 {
+				// the user's only Go file sorts BEFORE base.gen.go / lexer.gen.go / parser.gen.go (stale generated
+				// files must never be what the package name is read from)
+				for _, cc := range []*cliCase{ds.c, ds.old} {
+					if b, ok := cc.get("p.go"); ok {
+						cc.put("a_user.go", b)
+						delete(cc.Files, "p.go")
+						delete(cc.FilesB64, "p.go")
+					}
+				}
+				ds.kind += "+gofile-sorts-first"
+			}
 			specs = append(specs, ds)
 			i++
 		}
